@@ -688,6 +688,9 @@ func (s *Subscription) processCollectionEvent(event *rescache.ResourceEvent) {
 
 	case "delete":
 		s.state = stateDeleted
+		// As the deleted resource is unsubscribed from in the cache, the
+		// subscription will not be told when access needs to be checked anew.
+		s.access = nil
 		s.c.Send(rpc.NewEvent(s.rid, event.Event, event.Payload))
 		s.unsubscribeDirect(reserr.ErrDeleted)
 	default:
@@ -788,6 +791,9 @@ func (s *Subscription) processModelEvent(event *rescache.ResourceEvent) {
 		}
 	case "delete":
 		s.state = stateDeleted
+		// As the deleted resource is unsubscribed from in the cache, the
+		// subscription will not be told when access needs to be checked anew.
+		s.access = nil
 		s.c.Send(rpc.NewEvent(s.rid, event.Event, event.Payload))
 		s.unsubscribeDirect(reserr.ErrDeleted)
 	default:
@@ -984,8 +990,8 @@ func (s *Subscription) handleAccess(access *rescache.Access) {
 		cbs := s.accessCallbacks
 		s.flags &= ^flagAccessCalled
 		// Only store in case of an actual result or system.accessDenied error,
-		// and not for a resource that failed to load.
-		if (access.Error == nil || access.Error.Code == reserr.CodeAccessDenied) && s.err == nil {
+		// and not for a resource that failed to load or has been deleted.
+		if (access.Error == nil || access.Error.Code == reserr.CodeAccessDenied) && s.err == nil && s.state != stateDeleted {
 			s.access = access
 		}
 		s.accessCallbacks = nil
